@@ -20,6 +20,7 @@ import (
 var seededExpectedMiss = map[string]string{
 	"C05-m3": "numeric: the burst credit is computed from the quota before instead of after its adjustment (same statements, other order; the admission rule differs only in the value of a float)",
 	"C19-m1": "numeric: Floor vs Round of log2(min) — the bucket geometry differs only in a computed magnitude",
+	"C05-m7": "numeric: `2*length < softQuota` for `length < softQuota/2` — the quota decays at a different length for odd quotas only",
 	"C19-m4": "numeric: bitLen(min-1) (a ceiling) instead of floor(log2(min)) — the same kind of change as C19-m1",
 }
 
